@@ -1,2 +1,2 @@
--- stub: replaced by the model driver of this property
-def main : IO Unit := pure ()
+import SdcModel.Drivers.MdibDriver
+def main : IO Unit := Sdc.Io.lineLoop Sdc.MdibDriver.step {}
